@@ -534,10 +534,13 @@ SignalHandler::~SignalHandler() {
 
 void SignalHandler::SetHandler(InterruptHandler handler, void *data) {
   MP_VERIF_POINT("sigh.sethandler.begin");
-  handler_ = handler;
-  MP_VERIF_POINT("sigh.sethandler.after_handler_store");
+  // Never expose a handler paired with another registration's data:
+  // disable the callback, replace the data, then publish the new handler.
+  handler_ = 0;
   data_ = data;
   MP_VERIF_POINT("sigh.sethandler.after_data_store");
+  handler_ = handler;
+  MP_VERIF_POINT("sigh.sethandler.after_handler_store");
 }
 
 void SignalHandler::HandleSigInt(int sig) {
